@@ -181,7 +181,9 @@ def build_class(mod, spec, idx):
                 continue
             f = _mk_fn(d["name"], d["params"])
             if d["timed"]:
-                ns[d["name"]] = mod.timed_state(f, duration=d["dur"] / T, next_state=d["next"], first=d["first"])
+                # whole seconds are written the way people write them: duration=2 (an int), everything else as a float
+                dur_arg = d["dur"] // T if d["dur"] % T == 0 else d["dur"] / T
+                ns[d["name"]] = mod.timed_state(f, duration=dur_arg, next_state=d["next"], first=d["first"])
             else:
                 ns[d["name"]] = mod.state(f, first=d["first"])
         bases = tuple(built[j] for j in c["bases"]) or (mod.StatefulAutonomous,)
